@@ -38,6 +38,67 @@ fn with_explicit_nulls(s: &ASchema, ty: &ATy, v: &Value) -> Value {
     }
 }
 
+/// does `v` hold `null` (or lack a member) at a position the declared type makes non-null? (the part of "valid for the
+/// declared input type" that a Rust type can get wrong by being too wide)
+fn null_at_non_null(s: &ASchema, ty: &ATy, v: &Value) -> bool {
+    match ty {
+        ATy::NonNull(inner) => v.is_null() || null_at_non_null(s, inner, v),
+        ATy::List(inner) => match v {
+            Value::Array(xs) => xs.iter().any(|x| null_at_non_null(s, inner, x)),
+            _ => false,
+        },
+        ATy::Named(n) => match (s.get(n), v) {
+            (Some(AType::Input { one_of: false, fields, .. }), Value::Object(m)) => fields.iter().any(|(f, fty)| null_at_non_null(s, fty, m.get(f).unwrap_or(&Value::Null))),
+            (Some(AType::Input { one_of: true, fields, .. }), Value::Object(m)) => {
+                let set: Vec<&String> = m.iter().filter(|(_, x)| !x.is_null()).map(|(k, _)| k).collect();
+                set.len() != 1 || m.iter().any(|(k, x)| fields.iter().find(|(f, _)| f == k).map(|(_, fty)| !x.is_null() && null_at_non_null(s, fty, x)).unwrap_or(true))
+            }
+            _ => false,
+        },
+    }
+}
+
+/// `v` with ONE non-null position set to null (the `n`-th in a depth-first walk), or `None` when there are fewer
+fn null_one_required(s: &ASchema, ty: &ATy, v: &Value, n: &mut usize) -> Option<Value> {
+    match ty {
+        ATy::NonNull(inner) => {
+            if *n == 0 {
+                return Some(Value::Null);
+            }
+            *n -= 1;
+            null_one_required(s, inner, v, n)
+        }
+        ATy::List(inner) => match v {
+            Value::Array(xs) => {
+                for (i, x) in xs.iter().enumerate() {
+                    if let Some(y) = null_one_required(s, inner, x, n) {
+                        let mut out = xs.clone();
+                        out[i] = y;
+                        return Some(Value::Array(out));
+                    }
+                }
+                None
+            }
+            _ => None,
+        },
+        ATy::Named(name) => match (s.get(name), v) {
+            (Some(AType::Input { one_of: false, fields, .. }), Value::Object(m)) => {
+                for (f, fty) in fields {
+                    if let Some(x) = m.get(f) {
+                        if let Some(y) = null_one_required(s, fty, x, n) {
+                            let mut out = m.clone();
+                            out.insert(f.clone(), y);
+                            return Some(Value::Object(out));
+                        }
+                    }
+                }
+                None
+            }
+            _ => None,
+        },
+    }
+}
+
 /// remove some nullable members (a valid assignment may omit them)
 fn omit_some_nulls(rng: &mut Rng, v: &Value) -> Value {
     match v {
@@ -283,6 +344,8 @@ pub fn run(a: &Args) -> i32 {
         sent: Value,
         expected: Value,
         nontrivial: bool,
+        /// an INVALID assignment (one non-null position nulled): the generated types must not be able to hold it
+        invalid: bool,
     }
     let mut vs: Vec<V> = Vec::new();
     for c in &u.cases {
@@ -323,7 +386,27 @@ pub fn run(a: &Args) -> i32 {
                 for v in &op.vars {
                     rep.count(&format!("var_kind:{}", c.schema.kind_of(v.ty.base())));
                 }
-                vs.push(V { case: c.id, module: mi, op: op_struct.clone(), sent, expected, nontrivial });
+                vs.push(V { case: c.id, module: mi, op: op_struct.clone(), sent, expected, nontrivial, invalid: false });
+                // the same assignment with one non-null position nulled: if `Variables` can hold it (reads it and writes
+                // it back), a value of the generated type serializes to an assignment that is NOT valid for the declared types
+                if !op.vars.is_empty() && rng.chance(50) {
+                    let mut k = rng.range(0, 5);
+                    let mut bad = canon.as_object().cloned().unwrap_or_default();
+                    let mut done = false;
+                    for v in &op.vars {
+                        if let Some(x) = bad.get(&v.name).cloned() {
+                            if let Some(y) = null_one_required(&c.schema, &v.ty, &x, &mut k) {
+                                bad.insert(v.name.clone(), y);
+                                done = true;
+                                break;
+                            }
+                        }
+                    }
+                    if done {
+                        rep.count("assignment:one-non-null-position-nulled");
+                        vs.push(V { case: c.id, module: mi, op: op_struct.clone(), sent: Value::Object(bad), expected: Value::Null, nontrivial: true, invalid: true });
+                    }
+                }
             }
         }
     }
@@ -434,6 +517,27 @@ pub fn run(a: &Args) -> i32 {
                    "implementation_reply": raw, "detail": extra})
         };
         let reply = parse_reply(raw);
+        if v.invalid {
+            // accepted: then what comes back must not hold null at a non-null position of the declared types
+            if let Reply::Ok(body) = &reply {
+                let op = &c.doc.ops[v.module];
+                let got = &body["variables"];
+                let still_bad = op.vars.iter().any(|var| null_at_non_null(&c.schema, &var.ty, got.get(&var.name).unwrap_or(&Value::Null)));
+                if still_bad {
+                    rep.fail("variables-value-serializes-to-null-at-a-non-null-position", case_json(json!({"got": got})));
+                } else {
+                    rep.traces_validated += 1;
+                }
+            } else {
+                rep.traces_validated += 1;
+            }
+            let m = model_rt(&mut u.ctx.model, env_id(v.case, v.module), "Variables", &v.sent);
+            let vr = match &reply { Reply::Ok(body) => Reply::Ok(body["variables"].clone()), Reply::Err(e) => Reply::Err(e.clone()), Reply::Other(o) => Reply::Other(o.clone()) };
+            if let Some(d) = tie(&vr, &m) {
+                rep.disagree(json!({"what": "invalid assignment: serde model vs compiled code", "assignment": v.sent, "diff": d, "query": c.qtext}));
+            }
+            continue;
+        }
         let vars_reply = match &reply {
             Reply::Ok(body) => {
                 // exactly the three members
